@@ -68,11 +68,15 @@ def widen_c01(steps):
 
 
 def widen_c02(steps):
-    for s in steps:
+    for n, s in enumerate(steps):
         for k in ("create", "update"):
             if k in s and "err" not in s[k]:
                 s[k]["env"] = list(c01.ENV_POOL) + ORDER_SENSITIVE + [("process:p%d" % i, "override", b"K%d" % i, b"v") for i in range(8)]
                 s[k]["exec_d"] = [[p, p] for p in ("p1", "p2", "p3")]
+                if n % 3 == 1:
+                    # ... every third result has many programs, one of which (sorting last) has no source: the call fails, and what the
+                    # failed call leaves of exec.d is the same in every process
+                    s[k]["exec_d"] = [["a%d" % i, "p%d" % (1 + i % 3)] for i in range(7)] + [["zz-gone", "no-such-source"]]
                 if s[k]["sboms"]:
                     f0 = s[k]["sboms"][0][0]
                     s[k]["sboms"] = [[f0, b'{"first":1}'.hex()]] + s[k]["sboms"] + [[f0, b'{"last":2}'.hex()]]
